@@ -19,6 +19,7 @@ pub struct MapUniverse {
     pub version: u32,
     pub first_start: i32,
     pub keys: u8,
+    pub stream: (u32, u32),
 }
 
 impl MapUniverse {
@@ -31,6 +32,8 @@ impl MapUniverse {
             timing: self.timing,
             first_start: self.first_start,
             objs: self.alpha.seq(idx, self.n_max),
+            stream: self.stream,
+            jitter: 0,
         }
     }
 
@@ -70,6 +73,7 @@ pub struct UniOpts {
     pub first_start: i32,
     pub keys: u8,
     pub tag: String,
+    pub stream: (u32, u32),
 }
 
 impl UniOpts {
@@ -89,6 +93,7 @@ impl UniOpts {
             first_start: 1000,
             keys: 4,
             tag: String::new(),
+            stream: (0, 0),
         }
     }
 
@@ -113,6 +118,7 @@ impl UniOpts {
                     version: self.version,
                     first_start: self.first_start,
                     keys: self.keys,
+                    stream: self.stream,
                 }
             })
             .collect()
